@@ -205,6 +205,17 @@ func c12ShapeBits(ff []gts.Feature) string {
 	return b01(plain) + b01(noNil)
 }
 
+// c12HasComplClass: some class has two or more Complemented members (the shape of K12B).
+func c12HasComplClass(ff []gts.Feature) bool {
+	_, classes := c12Classes(ff, c12TextKey)
+	for _, idx := range classes {
+		if c12ClassShape(ff, idx).compl {
+			return true
+		}
+	}
+	return false
+}
+
 func c12HasJoin(ff []gts.Feature) bool {
 	for _, f := range ff {
 		if _, ok := f.Loc.(gts.Joined); ok {
@@ -436,10 +447,17 @@ func c12Table(r *Run, ff []gts.Feature, tag string) {
 	if p2 {
 		r.fail(Failure{Oracle: "(b) Repair is idempotent (second Repair panics)", Op: line, Got: "PANIC", Want: got})
 	} else if !c12TableEq(out2, out) {
-		// only a flattened join (written back unsorted) is known to break idempotence
+		// only a flattened join (written back unsorted) is known to break idempotence when sort.Sort
+		// is the (stable) insertion sort.  Beyond 12 members sort.Sort is not stable: when fused
+		// complemented members (K12B; their inner Join can move the fused location to the right of
+		// where it was sorted) leave the written-back class unsorted, the second Repair may return
+		// ties in another order than the first did and fuse / absorb other neighbours
+		// (Gts.C12.idempotent_with_full_refuted: idempotence is not a consequence of a correct sort)
 		f := Failure{Oracle: "(b) Repair is idempotent", Op: line, Got: c12EncTable(out2), Want: got}
 		if hasJoin && !proved {
 			f.Finding = "K12G"
+		} else if big && !proved && c12HasComplClass(ff) {
+			f.Finding = "K12B"
 		}
 		r.fail(f)
 	}
